@@ -65,7 +65,9 @@ class Concretizer:
                 if self.b(vdict_has(did, z3.IntVal(code))):
                     out[lit] = self.val(vdict_get(did, z3.IntVal(code)), depth + 1)
             return out
-        return {"__other__": str(r)}
+        from .values import vother_truthy
+
+        return {"__other__": str(r), "truthy": self.b(vother_truthy(r.arg(0)))}
 
     def value(self, v: V, depth=0):
         if v is SNone:
